@@ -313,6 +313,19 @@ func suiteC06(s *Suite, rng *Rng, tier string) {
 							deviate("witness.E-other", mk(func(m *gabi.IssueSignatureMessage) {
 								m.NonRevocationWitness.E = nextPrime(new(gbig.Int).Add(m.NonRevocationWitness.E, bi(2)), 1)
 							}), run.attrs, b, run)
+							// the signed accumulator as it arrives over the wire (not yet verified): key counter, payload, absence
+							wire := func(f func(sa *revocation.SignedAccumulator)) *gabi.IssueSignatureMessage {
+								return mk(func(m *gabi.IssueSignatureMessage) {
+									sa := m.NonRevocationWitness.SignedAccumulator
+									sa.Data = append([]byte{}, sa.Data...)
+									sa.Accumulator = nil
+									f(sa)
+								})
+							}
+							deviate("witness.sacc.PKCounter+1", wire(func(sa *revocation.SignedAccumulator) { sa.PKCounter++ }), run.attrs, b, run)
+							deviate("witness.sacc.Data-bit-flipped", wire(func(sa *revocation.SignedAccumulator) { sa.Data[len(sa.Data)/2] ^= 4 }), run.attrs, b, run)
+							deviate("witness.sacc.Data-truncated", wire(func(sa *revocation.SignedAccumulator) { sa.Data = sa.Data[:len(sa.Data)-3] }), run.attrs, b, run)
+							deviate("witness.sacc=nil", mk(func(m *gabi.IssueSignatureMessage) { m.NonRevocationWitness.SignedAccumulator = nil }), run.attrs, b, run)
 						}
 						// changed attribute list at the holder
 						for i := 0; i < nattr; i++ {
